@@ -6,11 +6,16 @@ import (
 	"context"
 	"encoding/json"
 	"fmt"
+	"go.uber.org/zap"
+	"google.golang.org/grpc/credentials/insecure"
 	"io"
+	"net"
 	"os"
+	"path/filepath"
 	"sort"
 	"strings"
 	"sync"
+	"time"
 
 	"github.com/jamf/regatta/regattapb"
 	"github.com/jamf/regatta/regattaserver"
@@ -715,6 +720,77 @@ func shipAndCheck(codec encoding.Codec, raw []byte, want [][]byte, cuts []int) (
 	return vs
 }
 
+// runRealServer: the same upload through a REAL server built by regattaserver.NewServer (its default
+// server options are part of what decides whether a decoded message stays intact) and the real
+// client-side backup.Writer, for chunk sizes from 1 byte to the whole file x table names of three
+// lengths (the receive buffers of the info message and of the chunks fall into the same and into
+// different size classes).
+func runRealServer(r *evid.Run) {
+	dir, err := os.MkdirTemp("", "verif-c18-srv-")
+	if err != nil {
+		r.Inconcl.Add(1)
+		return
+	}
+	defer os.RemoveAll(dir)
+	l, err := net.Listen("unix", filepath.Join(dir, "s.sock"))
+	if err != nil {
+		r.Inconcl.Add(1)
+		return
+	}
+	cap := &restoreCapture{}
+	srv := regattaserver.NewServer(l, zap.NewNop().Sugar())
+	regattapb.RegisterMaintenanceServer(srv, &regattaserver.BackupServer{Tables: cap})
+	go func() { _ = srv.Serve() }()
+	defer srv.Shutdown()
+	conn, err := grpc.NewClient("unix://"+filepath.Join(dir, "s.sock"), grpc.WithTransportCredentials(insecure.NewCredentials()), grpc.WithDefaultCallOptions(grpc.ForceCodec(encoding.GetCodec("proto"))))
+	if err != nil {
+		r.Inconcl.Add(1)
+		return
+	}
+	defer conn.Close()
+	var cmds []*regattapb.Command
+	for i := 0; i < 60; i++ {
+		cmds = append(cmds, &regattapb.Command{Type: regattapb.Command_PUT, Table: []byte("t"), Kv: &regattapb.KeyValue{Key: []byte(fmt.Sprintf("key-%03d", i)), Value: bytes.Repeat([]byte{byte('a' + i%26)}, 20+i*7)}})
+	}
+	raw, err := writeSnapshotFile(cmds)
+	if err != nil {
+		r.Inconcl.Add(1)
+		return
+	}
+	names := []string{"t", "regatta-test", strings.Repeat("long-table-name-", 6)}
+	for _, name := range names {
+		for _, chunk := range []int{1, 5, 11, 64, 200, 250, 3000, 4096, 32 << 10, len(raw)} {
+			ctx, cancel := context.WithTimeout(context.Background(), 60*time.Second)
+			stream, err := regattapb.NewMaintenanceClient(conn).Restore(ctx)
+			if err != nil {
+				cancel()
+				r.Inconcl.Add(1)
+				continue
+			}
+			cs := map[string]any{"kind": "real-server", "table_name_bytes": len(name), "chunk": chunk}
+			_ = stream.Send(&regattapb.RestoreMessage{Data: &regattapb.RestoreMessage_Info{Info: &regattapb.RestoreInfo{Table: []byte(name)}}})
+			bw := backup.Writer{Sender: stream}
+			for at := 0; at < len(raw); at += chunk {
+				if _, err := bw.Write(raw[at:min(len(raw), at+chunk)]); err != nil {
+					break
+				}
+			}
+			_, err = stream.CloseAndRecv()
+			cancel()
+			r.Outcome(fmt.Sprint("real-server", len(name), chunk, err == nil), true)
+			r.AddExtra("real_server_uploads", 1)
+			switch {
+			case err != nil:
+				r.Violate("framing/real-server/upload-error", fmt.Sprintf("table name of %d bytes, chunks of %d bytes: %v", len(name), chunk, err), cs)
+			case cap.name != name:
+				r.Violate("framing/real-server/table-name-changed-after-it-was-received", fmt.Sprintf("table name of %d bytes, chunks of %d bytes: the restore was handed the name %q instead of %q", len(name), chunk, cap.name, name), cs)
+			case !bytes.Equal(cap.got, raw):
+				r.Violate("framing/real-server/received-bytes-differ", fmt.Sprintf("table name of %d bytes, chunks of %d bytes: %d bytes received, %d sent", len(name), chunk, len(cap.got), len(raw)), cs)
+			}
+		}
+	}
+}
+
 func runFraming(r *evid.Run) {
 	codec := encoding.GetCodec("proto")
 	smallSets := [][]int{{}, {1}, {1, 300}, {40, 1, 7}, {300, 2, 1, 150}}
@@ -845,10 +921,11 @@ func runFraming(r *evid.Run) {
 
 func Run(r *evid.Run) {
 	r.Check = "c18"
-	r.Rule("(A) codec: for every message type of the four proto packages, the empty value, every single-field setting to depth 3 (every scalar kind with several values incl. large, every enum value, every oneof arm, present-empty messages, present-default optional fields, 1- and 2-element lists, map entry), every PAIR of settings, and an everything-set value: encode with the registered codec, decode into a fresh object (equal incl. presence, identical re-encoding), agree with the standard protobuf implementation in both directions; SnapshotChunk additionally into an object recycled with ResetVT after holding every other payload. (B) compressors gzip/snappy/zstd via encoding.GetCompressor: 13 sizes x 3 contents, every ordered pair through the pooled writer/reader sequentially, read back whole / 1-byte / 7-byte; plus a free-running concurrent pass. (D) pooled compressor state: 2 threads x 1-2 compress+decompress round trips over 3 payloads, 4 program pairs per compressor, pool Get/Put and every Write/Close/Read boundary are scheduling points, all interleavings up to the preemption bound; every round trip exact, no object put into a pool twice. (C) framing: command files written by the real snapshot file writer, shipped by the real snapshot.Writer.ReadFrom with EVERY placement of <= 2 cuts and every uniform chunk size, received by snapshot.Reader (WriteTo and Read), and backup.Writer -> BackupServer.Restore (backupReader); received bytes and message boundaries must be identical; plus an alignment sweep of multi-block snapshot files (first record of every size 0..109, then 2600 small records) written and read back message-wise so that 64 KiB block boundaries fall on every position of a record. Non-trivial: non-empty encoding / payload; distinct = distinct cases")
+	r.Rule("(A) codec: for every message type of the four proto packages, the empty value, every single-field setting to depth 3 (every scalar kind with several values incl. large, every enum value, every oneof arm, present-empty messages, present-default optional fields, 1- and 2-element lists, map entry), every PAIR of settings, and an everything-set value: encode with the registered codec, decode into a fresh object (equal incl. presence, identical re-encoding), agree with the standard protobuf implementation in both directions; SnapshotChunk additionally into an object recycled with ResetVT after holding every other payload. (B) compressors gzip/snappy/zstd via encoding.GetCompressor: 13 sizes x 3 contents, every ordered pair through the pooled writer/reader sequentially, read back whole / 1-byte / 7-byte; plus a free-running concurrent pass. (D) pooled compressor state: 2 threads x 1-2 compress+decompress round trips over 3 payloads, 4 program pairs per compressor, pool Get/Put and every Write/Close/Read boundary are scheduling points, all interleavings up to the preemption bound; every round trip exact, no object put into a pool twice. (C) framing: command files written by the real snapshot file writer, shipped by the real snapshot.Writer.ReadFrom with EVERY placement of <= 2 cuts and every uniform chunk size, received by snapshot.Reader (WriteTo and Read), and backup.Writer -> BackupServer.Restore (backupReader); received bytes and message boundaries must be identical; the upload also through a real server built by regattaserver.NewServer with the real backup.Writer for 10 chunk sizes x 3 table-name lengths (table name and bytes handed to the restore); plus an alignment sweep of multi-block snapshot files (first record of every size 0..109, then 2600 small records) written and read back message-wise so that 64 KiB block boundaries fall on every position of a record. Non-trivial: non-empty encoding / payload; distinct = distinct cases")
 	runCodec(r)
 	runCompressors(r)
 	runFraming(r)
+	runRealServer(r)
 	runPools(r)
 	r.Assume("pool interleavings: sync.Pool in the three compressor files is replaced through the build overlay by a deterministic LIFO pool whose Get/Put are scheduling points (real GC-driven pool eviction is not modelled: an evicted object is simply never reused, which the empty-pool starts cover); explored to the preemption bound in pool_preemption_bound; the additional free-running concurrent pass cannot decide anything")
 }
